@@ -21,6 +21,12 @@ Failed(e) ==
          ELSE (IF ~e.server_mode /\ e.firewalled /\ e.last_request_ro = 1 /\ ~e.answers_ping THEN {} ELSE {"C18_NatStaysClient"})
     [] e.e = "explicit" ->
          IF e.server_mode /\ e.answers_ping /\ e.reply_ro = 0 /\ e.id_valid_for_ip THEN {} ELSE {"C18_ExplicitConfig"}
+    [] e.e = "revote" ->
+         \* a node whose reported address changed to one at which it is not reachable is firewalled again and stays a client
+         IF e.confirmed_first /\ e.address_after_revote = e.wrong_address
+         THEN (IF e.firewalled_after_revote /\ e.pinged_wrong_address /\ ~e.server_mode_after_refresh
+                  /\ (e.address_after_refresh # e.wrong_address \/ e.firewalled_after_refresh) THEN {} ELSE {"C18_UnconfirmedAddressStaysClient"})
+         ELSE {}    \* the scenario did not establish its precondition: nothing to judge
     [] OTHER -> {}
 Init == l = 1
 Next == /\ l <= Len(Rec)
